@@ -169,7 +169,6 @@ def carrier_image(m, carrier, plain_resnames=()):
             if len(set(names)) != len(names):
                 return None, "repeated atom name inside one residue (read as alternate location)"
         ser = [a[SERIAL] for a in m["atoms"]]
-        ser_ok = all(_is_int(s) and 0 <= s <= 99999 for s in ser if s is not None and not _is_nan(s))
         holdable = [s for s in ser if _is_int(s) and 0 <= s <= 99999]
         distinct = len(set(holdable)) == len(holdable)
         for a in m["atoms"]:
@@ -182,7 +181,6 @@ def carrier_image(m, carrier, plain_resnames=()):
             if (i, j) not in seen:              # CONECT is a graph: a doubled bond cannot be held twice
                 seen.add((i, j))
                 bonds.append((i, j, ANY, ANY))
-        del ser_ok
         return {"atoms": atoms, "bonds": bonds}, None
     raise ValueError(carrier)
 
